@@ -112,7 +112,7 @@ class Gen:
         if depth >= 2 or x < 0.3:
             return self.primitive()
         if x < 0.6:
-            op = r.choice(["==", "!=", "<", ">", "<=", ">=", "contains", "in"] if self.weird else ["==", "!=", "<", ">"])
+            op = r.choice(["==", "!=", "==", "!=", "==", "!=", "<", ">", "<=", ">=", "contains", "in"] if self.weird else ["==", "!=", "==", "<"])
             return f"{self.primitive()} {op} {self.primitive()}"
         if x < 0.8:
             return f"{self.cond(depth + 1)} {r.choice(['and', 'or'])} {self.cond(depth + 1)}"
